@@ -254,6 +254,7 @@ def run(ctx):
         judge(ctx, cfg_of_init(b[0]), [b], "W%d" % i)
     if not quick and first:
         selftest(ctx, *first)
+    comp_stage(ctx)
     loop_stage(ctx)
     fetcher_stage(ctx)
     fired = ctx.cov.get("clauses_fired", {})
@@ -501,10 +502,45 @@ def loop_stage(ctx):
         raise vlib.Undecided("loop stage: no scenario made the slow honest peer time out on a large request (vacuous)")
 
 
+# ============================================================================ components of a block (sync modes, receipts)
+def comp_stage(ctx):
+    """spec/DlComp.tla: body and receipts as independent parts in full / fast / light mode, Schedule and ScheduleSingle; every
+    behaviour up to the bound is replayed on the real queue (driver `dlcomp`), DlComp_Mon judges what Results handed out."""
+    ctx.assumptions += ["component stage: all blocks carry transactions and receipts; one peer per part; ScheduleSingle only in light mode "
+                        "(its only caller); the receipt path of the queue (ReserveReceipts / DeliverReceipts) is driven with the true lists"]
+    behs = []
+    for mode in ("full", "fast", "light"):
+        c = 'CONSTANTS\n  N = %d\n  SyncMode = "%s"\n  MaxOps = 12\n  GenMode = "%s"\n'
+        m = ctx.tlc_must("DlComp", "SPECIFICATION Spec\nINVARIANTS ComponentsMatched InOrder\nVIEW View\nCHECK_DEADLOCK FALSE\n" + c % (2 if ctx.quick else 3, mode, "none"),
+                         name="CM_" + mode, timeout=600)
+        if m.violated:
+            raise vlib.Undecided("component stage: design-level violation %s in %s mode" % (m.violated, mode))
+        g = ctx.tlc_must("DlComp", "INIT Init\nNEXT Next\nCONSTRAINT Leaf\nCHECK_DEADLOCK FALSE\n" + c % (2, mode, "leaf"), name="CG_" + mode, timeout=600)
+        behs += [v["h"] for v in g.printed if isinstance(v, dict) and v.get("kind") == "B"]
+    bpath = ctx.path("comp_behaviours.ndjson")
+    vlib.write_ndjson(bpath, behs)
+    trace = ctx.path("comp_trace.ndjson")
+    info = ctx.drive("dlcomp", trace, behaviours=bpath)
+    for a in info["aborts"]:
+        ctx.report("C18/NoPanic/process_abort", vlib.save_behaviour_replay(ctx, "C18/NoPanic/process_abort", bpath, a["b"], {"driver": "dlcomp"}), a)
+    ctx.cov["traces_validated_against_impl"] += len(behs)
+    ctx.cov["evaluations"] += len(behs)
+    ctx.cov["comp_behaviours"] = len(behs)
+    result, _ = vlib.monitor(ctx, "DlComp_Mon", "DlComp_Mon.cfg", trace, name="CMon", behaviours=bpath, replay_meta={"driver": "dlcomp"})
+    if not result.get("fired", {}).get("BodyMatchesHeader") and not ctx.violations:
+        raise vlib.Undecided("component stage: no result was handed out (vacuous)")
+
+
 def replay(ctx, path):
     data = json.load(open(path))
     for i, b in enumerate(data["behaviours"]):
-        if data.get("meta", {}).get("driver") == "dlloop" or (isinstance(b, dict) and "scripts" in b):
+        if data.get("meta", {}).get("driver") == "dlcomp" or (isinstance(b, list) and b and "mode" in b[0]):
+            bp = ctx.path("comp_behaviours.ndjson")
+            vlib.write_ndjson(bp, [b])
+            tr = ctx.path("comp_trace.ndjson")
+            ctx.drive("dlcomp", tr, behaviours=bp)
+            vlib.monitor(ctx, "DlComp_Mon", "DlComp_Mon.cfg", tr, name="CMon", behaviours=bp, replay_meta={"driver": "dlcomp"})
+        elif data.get("meta", {}).get("driver") == "dlloop" or (isinstance(b, dict) and "scripts" in b):
             spath = ctx.path("loop_scenarios.ndjson")
             vlib.write_ndjson(spath, [b])
             trace = ctx.path("loop_trace.ndjson")
